@@ -7,7 +7,7 @@ clone=$(mktemp -d /tmp/seedrepo_XXXXXX)
 git clone -q /repo "$clone" || exit 2
 if ! git -C "$clone" apply "$d/patch.diff"; then echo "patch does not apply: $d"; rm -rf "$clone"; exit 2; fi
 for p in "$@"; do
-  out=$(BITS_REPO="$clone" timeout 3000 ./check "$p" --tier "${TIER:-quick}" 2>&1); rc=$?
+  out=$(VERIF_EVIDENCE_DIR="$clone/.evidence" BITS_REPO="$clone" timeout 3000 ./check "$p" --tier "${TIER:-quick}" 2>&1); rc=$?
   v=$(echo "$out" | grep -c '^VIOLATION')
   nf=$(echo "$out" | grep '^VIOLATION' | grep -vc 'no-failing-input-found')
   echo "$(date +%H:%M) $p rc=$rc violations=$v with_input=$nf :: $(echo "$out" | tail -1)" | tee -a "$d/result.txt"
